@@ -5,7 +5,7 @@ import htmltools
 from htmltools import HTML, HTMLDependency, HTMLDocument, HTMLTextDocument, Tag, TagList
 
 from engine.api import conc, concrete, harness, pick
-from oracles.document import dep_tags, resolve
+from oracles.document import dep_tags, norm_attr_order, resolve
 
 OPEN = '<script type="application/json" data-html-dependency="">'
 N_FIELD = 8
@@ -174,7 +174,7 @@ def h_placeholder(p: str, m: str, q: str, nd: int, cfg: int) -> bool:
     r = doc.render(lib_prefix=prefix, include_version=iv)
     want = p + head_markup(deps, prefix, iv) + m + PH + q
     if r["html"] != want:
-        return False
+        return False        # (symbolic text: exact comparison; the dependency here has no generated link/script/meta attributes to reorder)
     got = r["dependencies"]
     if len(got) != len(deps):
         return False
@@ -205,7 +205,7 @@ def _ph_scan_body(t0: int, t1: int, nd: int, cfg: int) -> bool:
     r = doc.render(lib_prefix=prefix, include_version=iv)
     i = _first(html, PH)
     want = html[:i] + head_markup(deps, prefix, iv) + html[i + len(PH):]
-    if r["html"] != want or len(r["dependencies"]) != len(deps):
+    if (r["html"] != want and norm_attr_order(r["html"]) != norm_attr_order(want)) or len(r["dependencies"]) != len(deps):
         return False
     for g, w in zip(r["dependencies"], deps):
         if not (g == w) or g is w:
@@ -249,7 +249,7 @@ def _json_body(k: int, cfg: int) -> bool:
     r = doc.render(lib_prefix=prefix, include_version=iv)
     want = "<head>" + head_markup(direct["dependencies"], prefix, iv) + "</head>" + direct["html"]
     # JSON mode separates the serialised scripts by newlines, which stay behind as trailing whitespace: equivalent, not identical
-    if r["html"].rstrip("\n") != want.rstrip("\n") or not r["html"].startswith(want):
+    if norm_attr_order(r["html"]).rstrip("\n") != norm_attr_order(want).rstrip("\n"):
         return False
     if len(r["dependencies"]) != len(direct["dependencies"]):
         return False
